@@ -110,4 +110,21 @@ for t in range(40 if tier == 'quick' else 200):
         if not ok:
             break
     c.check(ok, {'sequence': t, 'last_op': str(op)})
-emit([a, b, c])
+
+d = Bounded('C15::crop_closed_range_at_sample_points', 'all pairs of sample wavelengths (i <= j) of 3 random spectra as crop limits, plus limits just inside / outside a sample',
+            'crop keeps exactly the samples inside the closed requested range: a sample equal to either limit is kept')
+for t in range(3):
+    base = rand_spectrum(n=6)
+    w0, v0 = base.wave.copy(), base.value.copy()
+    for i, j in itertools.combinations_with_replacement(range(w0.size), 2):
+        for eps_lo, eps_hi in ((0, 0), (-1e-9, 1e-9), (1e-9, -1e-9)):
+            lo, hi = w0[i] + eps_lo, w0[j] + eps_hi
+            keep = (w0 >= lo) & (w0 <= hi)
+            if keep.sum() < 1:
+                continue
+            with d.case({'spectrum': t, 'lo': float(lo), 'hi': float(hi)}):
+                s = Spectrum(w0.copy(), v0.copy(), 'nm')
+                s.crop(lo, hi)
+                d.check(bool(np.array_equal(s.wave, w0[keep]) and np.array_equal(s.value, v0[keep])),
+                        {'spectrum': t, 'lo': float(lo), 'hi': float(hi), 'kept': np.asarray(s.wave).tolist(), 'expected': w0[keep].tolist()})
+emit([a, b, c, d])
